@@ -1,6 +1,7 @@
 package checks
 
 import (
+	"errors"
 	"encoding/json"
 	"fmt"
 	"reflect"
@@ -18,6 +19,11 @@ import (
 type c16Case struct {
 	Srcs []string
 	Cfg  drv.Cfg
+	// Cfgs (optional): the configuration put in force before input #i (the host flips switches between runs on one VM)
+	Cfgs []drv.Cfg `json:",omitempty"`
+	// Stored: the VM's variables hold values that have never been compiled (as restored from a snapshot / created by the
+	// host): function sf() { b3 + f + 2c5 + 3a5 }, computed sc = p1 + 2a10; an input that starts with "\x00expr:" goes to RunExpr
+	Stored bool `json:",omitempty"`
 }
 
 var gateTokens = []string{
@@ -123,7 +129,42 @@ func c16Enumerate(tier string, seed int64, emit func(string, any)) {
 			}
 		}
 	}
+	// reconfiguration: the SAME source on ONE VM under a sequence of settings (all ordered pairs of 10 settings, and back)
+	all := plain[15]
+	rc := []drv.Cfg{plain[0], all, strict, plain[1], plain[2], plain[4], plain[8]}
+	for _, f := range []func(c *drv.Cfg){func(c *drv.Cfg) { c.NoStmts = true }, func(c *drv.Cfg) { c.NoNDice = true }, func(c *drv.Cfg) { c.NoBitwise = true }} {
+		c := all
+		f(&c)
+		rc = append(rc, c)
+	}
+	for _, p := range append(probes[:len(probes):len(probes)], "b + p1 + f + 2a10 + 2c10", "while 0 {}; 1", "`{% if 1 {2} %}`", "1|2", "2d + 1", "func g(){ b }; g()", "&z = f; z") {
+		for _, c1 := range rc {
+			for _, c2 := range rc {
+				if cfgKey(c1) == cfgKey(c2) {
+					continue
+				}
+				emit("reconfigured", c16Case{Srcs: []string{p, p, p}, Cfg: c1, Cfgs: []drv.Cfg{c1, c2, c1}})
+			}
+		}
+	}
+	// stored, never-compiled values whose bodies contain family letters, used from inputs with and without macros, and RunExpr
+	uses := []string{"sf()", "sc", "sc + sf()", "\x00expr:b3 + f", "\x00expr:2c5 + 3a5 + p1", "\x00expr:sf() + sc", "b", "f"}
+	for _, m := range []string{"", macro} {
+		for _, u1 := range uses {
+			for _, u2 := range uses {
+				for _, c := range []drv.Cfg{plain[0], all, plain[1]} {
+					first := m + strings.TrimPrefix(u1, "\x00expr:")
+					if m == "" {
+						first = u1
+					}
+					emit("stored values", c16Case{Srcs: []string{first, u2, u1}, Cfg: c, Stored: true})
+				}
+			}
+		}
+	}
 }
+
+func cfgKey(c drv.Cfg) string { return c.String() }
 
 // st edit lists: values parsed under the st flag push (statements / implicit dice / bitwise disabled inside values)
 func c16StInputs(emit func(s string)) {
@@ -163,14 +204,28 @@ func c16Run(raw json.RawMessage) harn.Result {
 			res.Violations = append(res.Violations, harn.Violation{Signature: sig, What: fmt.Sprintf("cfg[%s] inputs %q: %s", c.Cfg, c.Srcs, what)})
 		}
 	}
-	enabled := map[string]bool{"coc": c.Cfg.CoC, "wod": c.Cfg.WoD, "fate": c.Cfg.Fate, "doublecross": c.Cfg.DC}
+	if c.Stored {
+		vm.Attrs.Store("sf", ds.NewFunctionValRaw(&ds.FunctionData{Expr: "b3 + f + 2c5 + 3a5", Name: "sf"}))
+		vm.Attrs.Store("sc", ds.NewComputedVal("p1 + 2a10"))
+	}
+	cur := c.Cfg
 	for i, src := range c.Srcs {
+		if i < len(c.Cfgs) {
+			cur = c.Cfgs[i]
+			cur.Apply(vm)
+		}
+		enabled := map[string]bool{"coc": cur.CoC, "wod": cur.WoD, "fate": cur.Fate, "doublecross": cur.DC}
 		before := vm.Config
 		dispatched = map[string]int{}
 		var perr, rerr error
 		site, p := harn.Guard(func() {
+			if strings.HasPrefix(src, "\x00expr:") {
+				_, rerr = vm.RunExpr(strings.TrimPrefix(src, "\x00expr:"), false)
+				perr = errors.New("(RunExpr: no top-level listing)")
+				return
+			}
 			// through Run, the entry point hosts use (odd cases: Parse + RunAfterParsed, the two-step form)
-			if (len(src)+i)%2 == 0 {
+			if (len(src)+i)%2 == 0 || len(c.Cfgs) > 0 {
 				if err := vm.Run(src); err != nil {
 					if drv.IsSyntaxError(err) {
 						perr = err
@@ -227,7 +282,7 @@ func c16Run(raw json.RawMessage) harn.Result {
 				}
 			}
 		}
-		if c.Cfg.NoStmts {
+		if cur.NoStmts {
 			for _, op := range stmtOps {
 				if listed[op] > 0 || dispatched[op] > 0 {
 					viol("C16:stmt-op-with-DisableStmts", fmt.Sprintf("input #%d compiles/executes %s although statements are disabled", i, op))
@@ -237,11 +292,28 @@ func c16Run(raw json.RawMessage) harn.Result {
 				viol("C16:loop-with-DisableStmts", fmt.Sprintf("input #%d compiles a backward jump although statements are disabled", i))
 			}
 		}
-		if c.Cfg.NoNDice && (listed["push.def_expr"] > 0 || dispatched["push.def_expr"] > 0) {
+		if cur.NoNDice && (listed["push.def_expr"] > 0 || dispatched["push.def_expr"] > 0) {
 			viol("C16:ndice-with-DisableNDice", fmt.Sprintf("input #%d compiles the implicit-sides dice form although it is disabled", i))
 		}
-		if c.Cfg.NoBitwise && (listed["&"]+listed["|"]+dispatched["&"]+dispatched["|"] > 0) {
+		if cur.NoBitwise && (listed["&"]+listed["|"]+dispatched["&"]+dispatched["|"] > 0) {
 			viol("C16:bitwise-with-DisableBitwiseOp", fmt.Sprintf("input #%d compiles a bitwise operator although it is disabled", i))
+		}
+		if len(c.Cfgs) > 0 && perr == nil {
+			// a reconfigured VM compiles the input exactly as a fresh VM under the setting now in force
+			fresh := drv.NewVM(cur)
+			var ferr error
+			if _, p := harn.Guard(func() { ferr = fresh.Parse(src) }); !p {
+				if ferr != nil {
+					viol("C16:reconfigured-vm-differs-from-fresh", fmt.Sprintf("input #%d is accepted after the switches were changed to [%s]; a fresh VM with these switches rejects it", i, cur))
+				} else if a, b := vm.GetAsmText(), fresh.GetAsmText(); a != b {
+					viol("C16:reconfigured-vm-differs-from-fresh", fmt.Sprintf("input #%d after the switches were changed to [%s] compiles to\n%s\na fresh VM with these switches compiles it to\n%s", i, cur, a, b))
+				}
+			}
+		} else if len(c.Cfgs) > 0 && perr != nil {
+			fresh := drv.NewVM(cur)
+			if ferr := fresh.Parse(src); ferr == nil {
+				viol("C16:reconfigured-vm-differs-from-fresh", fmt.Sprintf("input #%d is rejected after the switches were changed to [%s]; a fresh VM with these switches accepts it", i, cur))
+			}
 		}
 		after := vm.Config
 		if !cfgEqual(before, after) {
